@@ -1,27 +1,13 @@
-"""merge known_findings.d/*.json into known_findings.json (single committed file) and list /repo's fix commits.
-Fragments are kept in place only if --keep is given; otherwise they are deleted after merging."""
-import glob, json, os, subprocess, sys
+"""refresh the list of /repo's fix commits in known_findings.json and print a summary of open/fixed entries over
+known_findings.json and the fragments known_findings.d/*.json (both are read by lib/vcore.py; nothing is merged)."""
+import glob, json, subprocess
 main = json.load(open('/verif/known_findings.json'))
-seen = {(e['property'], e['key']) for e in main['findings']}
-fixed = list(main.get('fixed', []))
+main['repo_fix_commits'] = subprocess.run("git -C /repo log --format='%h %s' | grep ' fix: '", shell=True, capture_output=True, text=True).stdout.strip().split("\n")
+json.dump(main, open('/verif/known_findings.json', 'w'), indent=1)
+n_open = len([e for e in main['findings'] if e.get('status', 'open') == 'open'])
+n_fixed = len(main.get('fixed', []))
 for fn in sorted(glob.glob('/verif/known_findings.d/*.json')):
     d = json.load(open(fn))
-    for e in d.get('findings', []):
-        if e.get('status') != 'open':
-            continue
-        k = (e['property'], e['key'])
-        if k not in seen:
-            seen.add(k)
-            main['findings'].append({"property": e['property'], "key": e['key'], "status": "open", "what": e['what']})
-    for f in d.get('fixed', []):
-        if f not in fixed:
-            fixed.append(f)
-main['findings'].sort(key=lambda e: (e['property'], e['key']))
-main['fixed'] = fixed
-log = subprocess.run("git -C /repo log --format='%h %s' | grep ' fix: '", shell=True, capture_output=True, text=True).stdout.strip().split("\n")
-main['repo_fix_commits'] = log
-json.dump(main, open('/verif/known_findings.json', 'w'), indent=1)
-if '--keep' not in sys.argv:
-    for fn in glob.glob('/verif/known_findings.d/*.json'):
-        os.remove(fn)
-print(len(main['findings']), "open findings;", len(fixed), "fixed entries;", len(log), "fix commits")
+    n_open += len([e for e in d.get('findings', []) if e.get('status', 'open') == 'open'])
+    n_fixed += len(d.get('fixed', []))
+print(n_open, "open findings;", n_fixed, "fixed entries;", len(main['repo_fix_commits']), "fix commits")
